@@ -4,6 +4,7 @@
 #include <fcntl.h>
 #include <errno.h>
 #include <signal.h>
+#include <sys/prctl.h>
 #include <time.h>
 #include <sys/mman.h>
 #include <sys/wait.h>
@@ -399,6 +400,7 @@ spawn_worker(int w, int W, long first, long nitems, volatile long *cur, item_fn 
                 DIE("fork");
         if (p)
                 return p;
+        prctl(PR_SET_PDEATHSIG, SIGKILL); /* a killed / timed-out check must not leave workers behind */
         for (long i = first; i < nitems; i += W) {
                 if (deadline_reached() && !single) {
                         __atomic_fetch_add(&S->skipped, (nitems - i + W - 1) / W, __ATOMIC_RELAXED);
